@@ -2,7 +2,7 @@ def update(checks, pending):
     checks["C13"] = ("fmtmon", "exploration", "differential codec monitor (klevdb writer/readers/mmap/Open vs an independent reference codec) + Stat/Size/growth audit on histmon states",
         "Bytes, positions, sizes and Stat agreed with the documented layout on every generated message shape and every reached state.",
         "Trusted: the layout transcription in harness/ref/codec.go (written from the documentation, not from klevdb's code).", "5/C13")
-    checks["C19"] = ("lockmon", "exploration", "exhaustive fixed-length open/close/publish sequences against a lock-state automaton (in-process and cross-process) + read-only vs read-write differential sessions",
+    checks["C19"] = ("lockmon", "exploration", "exhaustive fixed-length open/close/publish sequences against a lock-state automaton (in-process and cross-process) + read-only vs read-write differential sessions (also through the typed wrapper, on an empty directory, with GC before the queries, several read-only handles querying at the same time, Close against a query held at a pause point, blocking constructors that fail)",
         "Every enumerated sequence obeyed the lock automaton; read-only handles answered like read-write ones and changed no log file.",
         "Trusted: kernel flock semantics.", "5/C19")
     for k in ("C13", "C19"):
@@ -26,7 +26,7 @@ def update(checks, pending):
     checks["C05"] = ("crashmon", "fault_enumeration", "strace-recorded syscall traces replayed to every crash point (plus torn appends and depth-2 crash points inside recovery); real Open(Recover) judged against the marker-derived allowed set",
         "Every enumerated crash image of every recorded workload recovered to an allowed log with agreeing views, monotone NextOffset, idempotent recovery and appendability (except the listed known finding).",
         "Trusted: strace's record of syscalls (self-checked by replay == real directory), harness/fstrace replayer, crash model of the property.", "5/C05")
-    checks["C06"] = ("crashmon", "fault_enumeration", "strace-recorded fsync/write trace; synthesized tail-loss images (per-file cut between last fsynced and current length) recovered by the real code and judged against the Sync watermark",
+    checks["C06"] = ("crashmon", "fault_enumeration", "strace-recorded fsync/write trace (single-goroutine, multi-process, torn-then-recovered and concurrent publisher/syncer workloads); synthesized tail-loss images (per-file cut between last fsynced and current length) recovered by the real code and judged against the Sync watermark",
         "Every synthesized power-loss image recovered to a prefix of the acknowledged log containing everything below the watermark.",
         "Trusted: strace's record of fsync calls, the property's durability model.", "5/C06")
     for k in ("C05", "C06"):
@@ -38,7 +38,7 @@ def update(checks, pending):
     checks["C08"] = ("concmon", "exploration", "Go race detector + schedule forcing (a call held inside vhook pause windows while other calls run; perturbed free-running mixes; large-record hammer) + recorded-history oracles (stream monitors, porcupine linearizability vs the sequential model, final-state observation)",
         "No race report, no non-linearizable history, no monitor failure and no foreign error on all scenarios and histories executed.",
         "Trusted: Go race detector, porcupine v1.3.0, harness/ref model. Reach is what the windows and perturbation produce.", "5/C08")
-    checks["C18"] = ("concmon", "exploration", "Go race detector + schedule forcing inside the notifier/blocking-wrapper windows + event-log oracles (no park on immediate return, no unexplained wake, no parked eligible waiter at quiescence by goroutine wait state, results linearizable as Consume, cancel/close errors)",
+    checks["C18"] = ("concmon", "exploration", "Go race detector + schedule forcing inside the notifier/blocking-wrapper windows (pkg/vhook points and a harness-side shim between wrapper and log) + event-log oracles (no park on immediate return, no unexplained wake or return, no parked eligible waiter at quiescence by goroutine wait state, results linearizable as Consume, cancel/close errors); all four constructors, read-only handles, noise calls and failing typed batches",
         "All placements and perturbed schedules executed satisfied the wake/park/result rules for both wrappers.",
         "Trusted: goroutine wait states from runtime.Stack, Go race detector, porcupine.", "5/C18")
     for k in ("C08", "C18"):
